@@ -15,11 +15,14 @@ one() {
   out=$(GOVC_REPO="$D/repo" GOVC_VERIF="$D/verif" bin/govc check -prop "$prop" 2>&1)
   v=$(echo "$out" | grep "^VIOLATION property=$prop " | sed 's/.*obligation=\([^ ]*\).*/\1/' | tr '\n' ' ')
   rm -rf "$D"
-  if [ -n "$v" ]; then echo "SEED $id ($prop): CAUGHT by $v"; return 0; else echo "SEED $id ($prop): MISSED"; return 1; fi
+  gap=$(python3 -c "import json; print(json.load(open('$d/meta.json')).get('expected',''))")
+  if [ -n "$v" ]; then echo "SEED $id ($prop): CAUGHT by $v"; return 0; fi
+  if [ "$gap" = "missed" ]; then echo "SEED $id ($prop): NOT-CAUGHT (recorded gap, see DESIGN.md 0.6)"; return 0; fi
+  echo "SEED $id ($prop): MISSED"; return 1
 }
 if [ "$1" = "--one" ]; then one "$2"; exit $?; fi
 list=$(for d in seeded/*/; do id=$(basename "$d"); case "$id" in *"$1"*) echo "seeded/$id";; esac; done)
 out=$(echo "$list" | xargs -P "${SEEDTEST_JOBS:-4}" -n 1 sh tools/seedtest.sh --one)
 echo "$out" | sort
-bad=$(echo "$out" | grep -c "MISSED\|does not")
+bad=$(echo "$out" | grep -c " MISSED\|does not")
 [ "$bad" -eq 0 ]
